@@ -42,11 +42,14 @@ static struct {
 	int waiting_on[RT_MAXT];        /* var index a waiter registered for, or -1 */
 	int order[NV];
 	int drv_gaps[NV], drv_read[NV], drv_nowake[NV], drv_try[NV], drv_check[NV];
+	int drv_endwait[NV];            /* the driver ends this section by WAITING (nsync_mu_wait on the release flag) instead of unlocking */
+	int releaser;                   /* tid of the releaser/controller thread of rounds with such sections, or 0 */
+	int rel, driver_waiting, driver_done;
 	int drv_notify;                 /* driver notifies the cancel note before this section (NV = only at the end) */
 	int nthreads;
 } S;
 
-enum { CV_WAITS = 0, CV_SLEPT, CV_TIMEDOUT, CV_CANCELLED, CV_EVALS, CV_QCHECKS, CV_NOWAKE, CV_READER_WAITS, CV_SAMEFN_DIFFARG, CV_EQ_ARGS, CV_DRV_SLEPT };
+enum { CV_WAITS = 0, CV_SLEPT, CV_TIMEDOUT, CV_CANCELLED, CV_EVALS, CV_QCHECKS, CV_NOWAKE, CV_READER_WAITS, CV_SAMEFN_DIFFARG, CV_EQ_ARGS, CV_DRV_SLEPT, CV_ENDWAIT };
 
 static void cond_ctx (void) {
 	int w = sc_get (&S.W);
@@ -184,17 +187,60 @@ static void driver (void) {
 		enter (1, "nsync_mu_lock");
 		S.var[S.order[i]] = 1;
 		rt_ev (0x900u + (uint32_t) S.order[i]);
+		if (S.releaser && S.drv_endwait[i]) {
+			/* end the section by waiting: the release inside nsync_mu_wait must wake the waiters of var[] just as an unlock would */
+			S.rel = 0;
+			rt_cover (CV_ENDWAIT);
+			sc_set (&S.driver_waiting, 1);
+			leave (1);
+			RT_OP ("nsync_mu_wait", nsync_mu_wait (&S.mu, &is_set, &S.rel, NULL));
+			enter (1, "nsync_mu_wait");
+			sc_set (&S.driver_waiting, 0);
+		}
 		leave (1);
 		RT_OP ("nsync_mu_unlock", nsync_mu_unlock (&S.mu));
-		if (S.drv_check[i]) quiescence_check ("after a driver section");
+		if (!S.releaser && S.drv_check[i]) quiescence_check ("after a driver section");
 	}
-	quiescence_check ("after the last driver section");
+	if (!S.releaser) quiescence_check ("after the last driver section");
+	else { sc_set (&S.driver_done, 1); return; }     /* the releaser performs the remaining checks and the clean-up */
+	RT_OP ("nsync_note_notify", nsync_note_notify (S.note));
+	RT_OP ("nsync_cv_broadcast", nsync_cv_broadcast (&S.cv));
+}
+
+/* releaser / controller of rounds in which the driver ends sections by waiting */
+static void releaser (void) {
+	int t;
+	for (;;) {
+		int pending = 0;
+		rt_wait_quiescent ();
+		rt_cover (CV_QCHECKS);
+		for (t = 1; t <= S.nw; t++) {
+			int k = sc_get (&S.waiting_on[t]);
+			if (k >= 0 && S.var[k] && rt_thread_blocked (t))
+				rt_violation ("cond-true-asleep", rt_thread_op (t), "waiter %d (%s, %s mode) is asleep although its condition var[%d] is true, the section that made it true has released the mutex (%s) and nothing else can run (mutex word %#x)",
+					      t, rt_thread_op (t), S.w[t].reader ? "read" : "write", k, sc_get (&S.driver_waiting) ? "by waiting in nsync_mu_wait" : "by nsync_mu_unlock", sc_word (&S.mu.word));
+			if (!rt_thread_done (t)) pending = 1;
+		}
+		if (sc_get (&S.driver_waiting)) {
+			RT_OP ("nsync_mu_lock", nsync_mu_lock (&S.mu)); enter (1, "nsync_mu_lock"); S.rel = 1; leave (1); RT_OP ("nsync_mu_unlock", nsync_mu_unlock (&S.mu));
+			continue;
+		}
+		if (sc_get (&S.driver_done) && !pending) break;
+		if (sc_get (&S.driver_done) && pending) {
+			/* every variable is true and the driver has finished, yet a waiter is neither done nor caught above: it sleeps on the mutex itself */
+			rt_violation ("deadlock", "after-last-section", "nothing can run, the driver has finished and every variable is true, but a waiter has not returned (mutex word %#x)", sc_word (&S.mu.word));
+		}
+		/* quiescent while the driver is neither waiting nor done: it is asleep in a lock acquisition that nobody will satisfy */
+		rt_violation ("deadlock", "driver-asleep", "nothing can run and the driver is asleep outside its release wait (mutex word %#x)", sc_word (&S.mu.word));
+	}
+	sc_set (&S.driver_done, 2);
 	RT_OP ("nsync_note_notify", nsync_note_notify (S.note));
 	RT_OP ("nsync_cv_broadcast", nsync_cv_broadcast (&S.cv));
 }
 
 static void body (int tid) {
 	if (tid == 0) driver ();
+	else if (tid == S.releaser) releaser ();
 	else if (tid <= S.nw) waiter (tid);
 	else if (tid == S.traffic) traffic (tid);
 	else cvtraffic (tid);
@@ -227,7 +273,8 @@ static int setup (uint64_t seed) {
 	}
 	for (t = 1; t < S.nw; t++) if (S.w[t].fkind == S.w[t + 1].fkind && S.w[t].var != S.w[t + 1].var) { rt_cover (CV_SAMEFN_DIFFARG); break; }
 	S.nthreads = 1 + S.nw;
-	S.traffic = S.cvtraffic = 0;
+	S.traffic = S.cvtraffic = 0; S.releaser = 0; S.rel = 0; S.driver_waiting = 0; S.driver_done = 0;
+	if (rt_rand_n (3) == 0 && S.nthreads < rt_scen.max_threads) S.releaser = S.nthreads++;
 	if (rt_rand_n (3) == 0 && S.nthreads < rt_scen.max_threads) S.traffic = S.nthreads++;
 	if (rt_rand_n (3) == 0 && S.nthreads < rt_scen.max_threads) S.cvtraffic = S.nthreads++;
 	S.drv_notify = (int) rt_rand_n (NV + 2);
@@ -236,6 +283,7 @@ static int setup (uint64_t seed) {
 	for (i = 0; i < NV; i++) {
 		S.drv_gaps[i] = (int) rt_rand_n (4); S.drv_read[i] = (int) rt_rand_n (2); S.drv_nowake[i] = rt_rand_n (4) == 0; S.drv_try[i] = rt_rand_n (4) == 0;
 		S.drv_check[i] = rt_mode_b () ? (int) rt_rand_n (2) : (rt_rand_n (10) == 0);
+		S.drv_endwait[i] = S.releaser ? (int) rt_rand_n (2) : 0;
 		rt_ev ((uint32_t) (S.order[i] | S.drv_gaps[i] << 2 | S.drv_read[i] << 4 | S.drv_nowake[i] << 5 | S.drv_try[i] << 6 | S.drv_check[i] << 7));
 	}
 	return (S.nthreads);
@@ -268,6 +316,6 @@ static void pinit (void) {
 	rt_cover_name (CV_WAITS, "conditional_waits"); rt_cover_name (CV_SLEPT, "waits_that_slept"); rt_cover_name (CV_TIMEDOUT, "waits_timedout");
 	rt_cover_name (CV_CANCELLED, "waits_cancelled"); rt_cover_name (CV_EVALS, "condition_evaluations"); rt_cover_name (CV_QCHECKS, "quiescence_checks");
 	rt_cover_name (CV_NOWAKE, "unlock_without_wakeup"); rt_cover_name (CV_READER_WAITS, "reader_mode_waits"); rt_cover_name (CV_SAMEFN_DIFFARG, "rounds_with_same_fn_diff_arg_neighbours");
-	rt_cover_name (CV_EQ_ARGS, "waits_with_condition_arg_eq"); rt_cover_name (CV_DRV_SLEPT, "driver_acquisitions_that_slept");
+	rt_cover_name (CV_EQ_ARGS, "waits_with_condition_arg_eq"); rt_cover_name (CV_DRV_SLEPT, "driver_acquisitions_that_slept"); rt_cover_name (CV_ENDWAIT, "driver_sections_ended_by_waiting");
 }
 rt_scenario rt_scen = { "cond_rounds", "C06", 8, &pinit, &setup, &body, &check, &teardown, &describe, NULL, &dump_state, NULL };
